@@ -119,7 +119,14 @@ func (r *ruler) helperRules() {
 		evs = append(evs, "PushBack("+absint.Key(sl)+", "+strings.Join(ks, ", ")+")")
 		return &absint.Sym{Op: "append", Args: []absint.Val{sl, elems}, T: fn.Params[1].Type()}, true
 	}
-	_, end := in.Run(fn, []absint.Val{&absint.Ptr{Cell: cell}, absint.NewVar("FREELIST", fn.Params[1].Type())})
+	var freeArg absint.Val = absint.NewVar("FREELIST", fn.Params[1].Type())
+	if pt, isPtr := fn.Params[1].Type().Underlying().(*types.Pointer); isPtr {
+		if _, isSl := pt.Elem().Underlying().(*types.Slice); isSl {
+			// the free list handed over by pointer to a slice
+			freeArg = &absint.Ptr{Cell: in.NewCell(absint.NewVar("FREELIST", pt.Elem()), "FREELIST")}
+		}
+	}
+	_, end := in.Run(fn, []absint.Val{&absint.Ptr{Cell: cell}, freeArg})
 	key := "vm.deleteContext / frees the subtree, empties the child table, then recycles"
 	iFor, iClear, iPush := -1, -1, -1
 	for i, e := range evs {
@@ -128,7 +135,7 @@ func (r *ruler) helperRules() {
 			iFor = i
 		case strings.Contains(e, ".Clear(CTX.children"):
 			iClear = i
-		case (strings.Contains(e, "PushFront(FREELIST, ") || strings.Contains(e, "PushBack(FREELIST, ")) && strings.Contains(e, "&CTX[]"):
+		case (strings.Contains(e, "PushFront(FREELIST, ") || strings.Contains(e, "PushBack(FREELIST, ") || strings.Contains(e, "PushBack(deref(FREELIST), ")) && strings.Contains(e, "&CTX[]"):
 			iPush = i
 		}
 	}
